@@ -307,44 +307,27 @@ def helper_pair(ctx):
     a = ctx.fn("patronus", CHECK)
     b = ctx.fn("patronus", CHECK_END)
 
-    def cap_if(f):
-        for n in walk(f["body"]):
-            if n.get("k") == "if":
-                c = peel(n["cond"])
-                neg = False
-                if c.get("k") == "unary" and c["op"] == "!":
-                    neg, c = True, peel(c["e"])
-                if c.get("k") == "mcall" and c["name"] == "supports_check_assuming":
-                    return n, neg
-        return None, None
-    ia, na = cap_if(a)
-    ib, nb = cap_if(b)
-    if ia is None or ib is None:
+    is_cap = lambda c: c.get("k") == "mcall" and c["name"] == "supports_check_assuming"
+    sa = norm.bool_split(a["body"], is_cap)
+    sb = norm.bool_split(b["body"], is_cap)
+    if sa is None or sb is None:
         ctx.violation("R02.4", "helpers:shape", a["span"], "UNRECOGNISED: check_assuming / check_assuming_end do not branch on supports_check_assuming()")
         return
-
-    def branch(i, neg, want_supported):
-        t, e = i["then"], i.get("else")
-        if neg:
-            t, e = e, t
-        return t if want_supported else e
-    push_branch = branch(ia, na, False)
-    pop_branch = branch(ib, nb, False)
-    pushes = [n for n in walk(push_branch)] if push_branch else []
-    pops = [n for n in walk(pop_branch)] if pop_branch else []
+    sup_a, push_branch, ia = sa
+    sup_b, pop_branch, ib = sb
+    pushes = push_branch
+    pops = pop_branch
     n_push = len([n for n in pushes if mname(n, "push")])
     n_pop = len([n for n in pops if mname(n, "pop")])
-    sup_a = branch(ia, na, True)
-    sup_b = branch(ib, nb, True)
-    bad_a = len([n for n in walk(sup_a) if mname(n, "push") or mname(n, "pop")]) if sup_a else 0
-    bad_b = len([n for n in walk(sup_b) if mname(n, "push") or mname(n, "pop")]) if sup_b else 0
+    bad_a = len([n for n in sup_a if mname(n, "push") or mname(n, "pop")])
+    bad_b = len([n for n in sup_b if mname(n, "push") or mname(n, "pop")])
     ctx.inst("R02.4", "helpers:push-pop-balance", n_push == 1 and n_pop == 1 and bad_a == 0 and bad_b == 0, ia["sp"],
              "without check-sat-assuming support check_assuming pushes %d time(s) and check_assuming_end pops %d time(s); with support %d/%d stack operations" % (n_push, n_pop, bad_a, bad_b),
              sample={"push_in_unsupported_branch": n_push, "pop_in_unsupported_branch": n_pop})
     # emulation branch asserts every prop and then calls check_sat; supported branch forwards props
     asserts = [n for n in pushes if mname(n, "assert")]
     sat = [n for n in pushes if mname(n, "check_sat")]
-    fwd = [n for n in walk(sup_a) if mname(n, "check_sat_assuming")] if sup_a else []
+    fwd = [n for n in sup_a if mname(n, "check_sat_assuming")]
     props_id = None
     for p in a["params"]:
         for name, i in pat_bindings(p):
@@ -352,12 +335,13 @@ def helper_pair(ctx):
                 props_id = i
     ok = len(asserts) == 1 and len(sat) == 1 and len(fwd) == 1 and props_id is not None and is_local(fwd[0]["args"][-1], props_id)
     if ok:
-        lp = None
-        for n in pushes:
-            if n.get("k") == "for" and contains(n["body"], asserts[0]):
-                lp = n
-        b_, ms = chain(lp["iter"]) if lp else (None, [])
-        ok = lp is not None and b_ is not None and is_local(b_, props_id) and is_local(asserts[0]["args"][-1], binding_of_pat(lp["pat"])[1])
+        itc = norm.iter_context(Index(a["body"]), asserts[0])
+        ok = itc is not None and itc["kind"] in ("for", "closure") and itc["via"] in ("for", "for_each", "try_for_each")
+        if ok:
+            b_, ms = chain(itc["src"])
+            eb = pat_bindings(itc["pat"])
+            ok = is_local(b_, props_id) and all(m[0] in ("into_iter", "iter", "copied", "cloned") for m in ms) and len(eb) == 1 and is_local(asserts[0]["args"][-1], eb[0][1]) \
+                and not any(x.get("k") in ("continue", "break") for x in walk(itc["body"]))
     ctx.inst("R02.4", "helpers:emulation-asserts-props", ok, ia["sp"], "the push/pop emulation does not assert every assumption before check_sat, or the native branch does not forward the assumptions")
 
 
